@@ -52,6 +52,9 @@ def specs(tier):
                 idx = len(out)
                 invs = [(idx >> i) & 1 for i in range(len(classes))] if tier == "thorough" else [1 if i == 0 else 0 for i in range(len(classes))]
                 out.append({"shape": shape, "kind": kind, "name": "m", "members": list(combo), "invs": invs, "inits": [None] * len(classes)})
+                if kind in ("method", "pget", "static") and shape in ("chain2", "two_bases", "chain3") and sum(1 for c in combo if c and any(c)) >= 2:
+                    # the same hierarchy with a foreign functools.wraps decorator on top of the contracts of every member
+                    out.append(dict(out[-1], foreign_top=True))
     # invariants with mixed check_on (ALL + CALL) on the classes of chains and two-base hierarchies
     for shape in ("chain2", "chain3", "two_bases"):
         classes = SHAPES[shape]
@@ -86,11 +89,18 @@ def specs(tier):
 # ---------------------------------------------------------------------------------------------
 
 PRELUDE = '''\
+import functools
 import icontract
 LOG = []
 T = {}
 def _truth(n):
     return T.get(n, True)
+def fw(fn):
+    # a foreign decorator (functools.wraps copies the __dict__ of the checker, i.e. aliases of its contract lists)
+    @functools.wraps(fn)
+    def w(*a, **k):
+        return fn(*a, **k)
+    return w
 '''
 
 
@@ -132,6 +142,8 @@ def render(spec):
         if mopt is not None:
             decos = ["@icontract.require({0}, error=E_{0})".format(n) for n in reversed(pres)] + \
                     ["@icontract.ensure({0}, error=E_{0})".format(n) for n in reversed(posts)]
+            if spec.get("foreign_top"):
+                decos = ["@fw"] + decos
             logb = "    LOG.append(('body', '{}'))".format(cls)
             if kind == "method":
                 body += decos + ["def {}(self, x=None):".format(name), logb, "    return 1"]
